@@ -22,16 +22,18 @@ SPEC_DIR = env.SPECS + "/http"
 HOSTS = {"h1": "127.0.0.1", "h2": "127.0.0.2", "h3": "127.0.0.3"}
 NAMES = {v: k for k, v in HOSTS.items()}
 REASONS = {301: "Moved Permanently", 302: "Found", 303: "See Other", 307: "Temporary Redirect", 308: "Permanent Redirect"}
-ACTIONS = ["Issue", "Redirect", "Final", "Idle"]
+ACTIONS = ["Issue", "Redirect", "Final", "Idle", "Again"]
+NCHAINS = [0]
 QKINDS = ["plain", "amp", "plus", "hash", "pct"]
 # the text of a query of each kind: values holding percent-encoded reserved characters must arrive meaning the same
 QTEXT = {"none": "", "start": "s=0", "plain": "n=%d", "amp": "q=rock%%26roll&n=%d", "plus": "tag=c%%2B%%2B&n=%d",
          "hash": "ref=a%%23b&n=%d", "pct": "v=%%2541&n=%d"}
 
 
-def query_text(q):
+def query_text(q, offset=0):
+    """offset tells the hops of the user's second request from those of the first"""
     t = QTEXT[q["kind"]]
-    return t % q["hop"] if "%d" in t else t.replace("%%", "%")
+    return t % (q["hop"] + offset) if "%d" in t else t.replace("%%", "%")
 
 
 def query_back(raw):
@@ -44,7 +46,7 @@ def query_back(raw):
     except ValueError:
         pairs = None
     for kind in QTEXT:
-        for hop in range(0, 5):
+        for hop in range(0, 25):
             q = {"kind": kind, "hop": hop if "%d" in QTEXT[kind] else 0}
             if pairs == parse_qsl(query_text(q), keep_blank_values=True):
                 return q
@@ -58,11 +60,11 @@ def port_num(s, p):
     return 8443 if s == "https" else 8080
 
 
-def cfg_text(schemes, hosts, pcs, statuses, maxhops, props=True, startkinds=("none", "start")):
+def cfg_text(schemes, hosts, pcs, statuses, maxhops, props=True, startkinds=("none", "start"), rounds=2, qkinds=QKINDS):
     q = lambda xs: "{%s}" % ", ".join('"%s"' % x for x in xs)
     s = ("SPECIFICATION Spec\nCONSTANTS\n  Schemes = %s\n  Hosts = %s\n  PortClasses = %s\n  Statuses = {%s}\n  MaxHops = %d\n"
-         "  QKinds = %s\n  StartKinds = %s\nCHECK_DEADLOCK FALSE\n" % (q(schemes), q(hosts), q(pcs), ", ".join(str(x) for x in statuses),
-                                                                     maxhops, q(QKINDS), q(startkinds)))
+         "  QKinds = %s\n  StartKinds = %s\n  Rounds = %d\nCHECK_DEADLOCK FALSE\n" % (q(schemes), q(hosts), q(pcs), ", ".join(str(x) for x in statuses),
+                                                                                  maxhops, q(qkinds), q(startkinds), rounds))
     if props:
         s += ("INVARIANT WrappedIffHttps\nINVARIANT ChainDelivered\nINVARIANT ExactlyOneFinalResponse\nINVARIANT RequestsCountHops\n"
               "PROPERTY NeverDowngrade\nPROPERTY ReconnectIffTargetDiffers\nPROPERTY ChainInOrder\nPROPERTY NothingAfterTheEnd\n")
@@ -73,15 +75,17 @@ def path_text(segs):
     return "/" + "/".join(segs)
 
 
-def loc_text(loc, base_scheme):
+def loc_text(loc, base_scheme, offset=0):
     """the Location header a server sends for the abstract location"""
-    q = ("?" + query_text(loc["q"])) if loc["q"]["kind"] != "none" else ""
-    if loc["shape"] in ("abs", "schemerel"):
-        s = loc["s"] if loc["shape"] == "abs" else base_scheme
+    q = ("?" + query_text(loc["q"], offset)) if loc["q"]["kind"] != "none" else ""
+    if loc["shape"] in ("abs", "absroot", "schemerel"):
+        s = loc["s"] if loc["shape"] != "schemerel" else base_scheme
         auth = HOSTS[loc["h"]]
         if loc["p"] != "std":
             auth += ":%d" % port_num(s, loc["p"])
-        pre = (s + ":") if loc["shape"] == "abs" else ""
+        pre = (s + ":") if loc["shape"] != "schemerel" else ""
+        if loc["shape"] == "absroot":
+            return pre + "//" + auth                      # no path at all: means the root
         return pre + "//" + auth + path_text(loc["path"]) + q
     if loc["shape"] == "pathabs":
         return path_text(loc["path"]) + q
@@ -154,13 +158,18 @@ class Chain:
         o = u["o"]
         self.start = u
         self.base0 = len(farm.calls)
-        self.conn0 = len(farm.net.conns)
+        self.conn0 = self.conn_first = len(farm.net.conns)
+        self.resp0 = 0
+        self.round = 1
         self.sent_locs = []
         self.refused = False
         self.downgrade = False
         self.final_body = None
         self.error = None
         kw = {"context": P.FakeTlsContext()} if o["s"] == "https" else {}
+        NCHAINS[0] += 1
+        if NCHAINS[0] % 2 == 0:      # the documented caller-supplied respondent
+            kw["respondent"] = clienting.Respondent()
         with P.patched(farm.net, tls=True):
             self.patron = clienting.Patron(hostname=HOSTS[o["h"]], port=port_num(o["s"], o["p"]), scheme=o["s"],
                                            store=storing.Store(stamp=0.0), **kw)
@@ -187,7 +196,22 @@ class Chain:
         ncalls = len(self.calls())
         nresp = len(self.patron.responses)
         try:
-            if name == "Issue":
+            if name == "Again":
+                # a further request of the user on the same Patron; everything is counted per request from here
+                from ioflo.aid.odicting import odict
+                segs, q = args
+                self.round += 1
+                self.base0 = len(self.farm.calls)
+                self.conn0 = len(self.farm.net.conns)
+                self.resp0 = len(self.patron.responses)
+                self.sent_locs = []
+                self.final_body = None
+                ncalls = 0
+                sq = query_text(q)
+                self.patron.request(method="GET", path=path_text(segs) + (("?" + sq) if sq else ""), qargs=odict(),
+                                    headers={"X-Tag": "t"})
+                self.passes(lambda: len(self.calls()) > ncalls)
+            elif name == "Issue":
                 sq = query_text(self.start["query"])
                 path = path_text(self.start["path"]) + (("?" + sq) if sq else "")
                 self.patron.request(method="GET", path=path, headers={"X-Tag": "t"})
@@ -197,10 +221,10 @@ class Chain:
                 rec = self.pending()
                 if rec is None:
                     raise RuntimeError("no request is outstanding at any server")
-                text = loc_text(loc, rec["origin"][0])
+                text = loc_text(loc, rec["origin"][0], 10 * (self.round - 1))
                 hop = len(self.sent_locs) + 1
                 self.sent_locs.append(text)
-                self.downgrade = rec["origin"][0] == "https" and loc["shape"] == "abs" and loc["s"] == "http"
+                self.downgrade = rec["origin"][0] == "https" and loc["shape"] in ("abs", "absroot") and loc["s"] == "http"
                 headers = [("Location", text), ("X-Hop", str(hop))]
                 if hop % 2:
                     headers.append(("Content-Length", "0"))
@@ -213,7 +237,7 @@ class Chain:
                 rec = self.pending()
                 if rec is None:
                     raise RuntimeError("no request is outstanding at any server")
-                self.final_body = b"final after %d" % len(self.sent_locs)
+                self.final_body = b"final %d after %d" % (self.round, len(self.sent_locs))
                 rec["answer"] = ("200 OK", [("Content-Type", "text/plain"), ("Content-Length", str(len(self.final_body)))],
                                  [self.final_body])
                 self.passes(lambda: len(self.patron.responses) > nresp)
@@ -231,8 +255,8 @@ class Chain:
     def project(self):
         calls = self.calls()
         conns = self.farm.net.conns[self.conn0:]
-        out = {"reqs": len(calls)}
-        resp = list(self.patron.responses)
+        out = {"reqs": len(calls), "round": self.round}
+        resp = list(self.patron.responses)[self.resp0:]
         pend = self.pending()
         if resp and 300 <= resp[0]["status"] < 400 and getattr(self, "downgrade", False):
             self.refused = True          # the other admissible way to refuse: hand the redirect itself to the user
@@ -247,11 +271,13 @@ class Chain:
             s, h, p = c["origin"]
             segs = tuple(c["path"][1:].split("/")) if (c["path"] or "").startswith("/") else ("?" + str(c["path"]),)
             out["url"] = {"o": {"s": s, "h": h, "p": p}, "path": segs, "query": query_back(c["query"]) if c["method"] == "GET" else {"kind": "?" + str(c["method"]), "hop": -1}}
+            if out["url"]["query"]["kind"] not in ("none", "start") and len(calls) > 1:
+                out["url"]["query"]["hop"] -= 10 * (self.round - 1)
             host, _, port = (c["host"] or "").rpartition(":")
             if not host:
                 host, port = port, str(port_num(s, "std"))
             out["hosthdr"] = (NAMES.get(host, host), int(port) if port.isdigit() else -1)
-            cx = [k for k in conns if k.client.local == c["ca"]]
+            cx = [k for k in self.farm.net.conns[self.conn_first:] if k.client.local == c["ca"]]
             if len(cx) != 1:
                 out["wrapped"] = "unknown-connection"
             elif cx[0].client.tls != cx[0].server.tls:
@@ -301,8 +327,8 @@ def run_c34(ctx):
     schemes, hosts, pcs = ["http", "https"], ["h1", "h2"], ["std", "alt"]
     statuses = ctx.pick([302, 307, 308], [301, 302, 303, 307, 308])
     hops = 3
-    res = tlc.run("Redirect", cfg_text(schemes, hosts, pcs, ctx.pick([302, 307], statuses), hops), spec_dir=SPEC_DIR, tag="c34mc", timeout=6 * 3600)
-    ctx.add_model(res, "Redirect", {"Schemes": schemes, "Hosts": hosts, "PortClasses": pcs, "MaxHops": hops})
+    res = tlc.run("Redirect", cfg_text(schemes, hosts, pcs, ctx.pick([307], statuses[:3]), hops), spec_dir=SPEC_DIR, tag="c34mc", timeout=6 * 3600)
+    ctx.add_model(res, "Redirect", {"Schemes": schemes, "Hosts": hosts, "PortClasses": pcs, "MaxHops": hops, "Rounds": 2})
     if not res.ok:
         ctx.diverge(Divergence("C34", "model", res.error_name or res.error, "Redirect", "specification property violated in the model",
                                steps=[{"action": a, "state": s} for a, s in res.trace]))
@@ -314,7 +340,7 @@ def run_c34(ctx):
     # (a) every edge of the one-hop graph
     dot = work + "/one.dot"
     res = tlc.run("Redirect", cfg_text(schemes, hosts, pcs, ctx.pick([307], statuses), 1, props=False,
-                                       startkinds=ctx.pick(("start",), ("none", "start"))), spec_dir=SPEC_DIR,
+                                       startkinds=ctx.pick(("start",), ("none", "start")), rounds=1), spec_dir=SPEC_DIR,
                   dump_dot=dot, tag="c34g", coverage=False, timeout=6 * 3600)
     ctx.add_model(res, "Redirect-graph-1hop", {"MaxHops": 1})
     g = graph.load_dot(dot)
@@ -323,15 +349,30 @@ def run_c34(ctx):
     n1, divs = replay.replay("C34", traces, lambda init: Chain(farm, init, rng))
     ctx.diverge(divs)
     ctx.add_validated(len(traces), {"one-hop": [s[0] for s in traces[len(traces) // 2]]})
+    # (a') two requests one after the other on the same Patron: plain / redirected first, plain / redirected second
+    dot2 = work + "/two.dot"
+    res = tlc.run("Redirect", cfg_text(["http"], ctx.pick(["h1"], ["h1", "h2"]), ctx.pick(["std"], ["std", "alt"]), [307], 1, props=False,
+                                       startkinds=("start",), rounds=2, qkinds=["plain"]), spec_dir=SPEC_DIR,
+                  dump_dot=dot2, tag="c34g2", coverage=False, timeout=6 * 3600)
+    ctx.add_model(res, "Redirect-graph-2requests", {"MaxHops": 1, "Rounds": 2})
+    g2 = graph.load_dot(dot2)
+    paths2 = graph.edge_cover(g2, max_len=10)
+    traces2 = replay.graph_paths_to_traces(g2, paths2)
+    if not any(st[1][0] == "Again" for t in traces2 for st in t[1:]):
+        raise tlc.TlcError("vacuous: no behaviour with a second request on the same client")
+    n1b, divs = replay.replay("C34", traces2, lambda init: Chain(farm, init, rng))
+    ctx.diverge(divs)
+    ctx.add_validated(len(traces2), {"two-requests": [s[0] for s in traces2[len(traces2) // 2]]})
+    n1 += n1b
     # (b) longer chains drawn by TLC
     nsim = ctx.pick(1200, 20000)
     prefix = work + "/sim/b"
     import os
     os.makedirs(work + "/sim")
     res = tlc.run("Redirect", cfg_text(schemes, hosts, pcs, statuses, hops), spec_dir=SPEC_DIR,
-                  simulate={"num": max(1, nsim // env.NCPU), "depth": 7, "file": prefix}, seed=ctx.seed + 1, deadlock=False,
+                  simulate={"num": max(1, nsim // env.NCPU), "depth": 11, "file": prefix}, seed=ctx.seed + 1, deadlock=False,
                   tag="c34sim", timeout=6 * 3600)
-    ctx.add_model(res, "Redirect-simulate", {"behaviours": nsim, "depth": 7, "Statuses": statuses})
+    ctx.add_model(res, "Redirect-simulate", {"behaviours": nsim, "depth": 11, "Statuses": statuses, "Rounds": 2})
     if not res.ok:
         ctx.diverge(Divergence("C34", "model", res.error_name or res.error, "Redirect", "specification property violated in simulation",
                                steps=[{"action": a, "state": s} for a, s in res.trace]))
@@ -359,7 +400,8 @@ def run_c34(ctx):
     ctx.extra.update({"one_hop_graph_edges": g.nedges, "one_hop_edges_replayed": graph.covered_edges(paths),
                       "simulated_chains": len(sims), "distinct_chains_replayed": len(uniq), "location_shapes": kinds,
                       "requests_seen_by_servers": len(farm.calls), "connections_made": len(farm.net.conns),
-                      "distinct_nontrivial": len(traces) + len(uniq), "evaluations": n1 + n2})
+                      "two_request_graph_edges": g2.nedges, "two_request_edges_replayed": graph.covered_edges(paths2),
+                      "distinct_nontrivial": len(traces) + len(traces2) + len(uniq), "evaluations": n1 + n2})
     ctx.assume("TLS is a double below ClientTls/ServerTls (no certificates, no real handshake); hosts are the literals "
                "127.0.0.1 / 127.0.0.2; GET requests only")
 
